@@ -215,6 +215,77 @@ def run(ctx):
             import traceback
             viol.append({"kind": "a write through a view raised", "fixture": name, "error": repr(ex)[:300], "trace": traceback.format_exc()[-400:]})
 
+    # ---- name selectors (channels, synapse types, groups) and selections of synapses through views
+    try:
+        from jaxley.channels import HH, Leak
+        from jaxley.connect import connect
+        from jaxley.synapses import IonotropicSynapse, TestSynapse
+        for rep in range(ctx.budget(3, 15)):
+            comp = jx.Compartment()
+            with quiet():
+                cells = [jx.Cell([jx.Branch([comp] * k) for k in cnt], parents=par) for cnt, par in (([2, 1, 3], [-1, 0, 0]), ([1, 2], [-1, 0]), ([3], [-1]))]
+                net = jx.Network(cells)
+                n = len(net.nodes)
+                hh_rows = sorted(rng.sample(range(n), rng.randint(1, n - 1)))
+                net.select(nodes=hh_rows).insert(HH())
+                grp_rows = sorted(rng.sample(range(n), rng.randint(1, n - 1)))
+                net.select(nodes=grp_rows).add_to_group("grp")
+                tys = [rng.choice([IonotropicSynapse, TestSynapse]) for _ in range(rng.randint(n + 1, n + 4))]     # more synapses than compartments
+                ends = []
+                for t in tys:
+                    a, b = rng.sample(range(n), 2)
+                    connect(net.select(nodes=[a]), net.select(nodes=[b]), t())
+                    ends.append((a, b))
+            ne = len(tys)
+            for trial in range(6):
+                vrows = sorted(rng.sample(range(n), rng.randint(1, n)))
+                with quiet():
+                    view = net.select(nodes=vrows)
+                ev = [e for e in range(ne) if ends[e][0] in vrows and ends[e][1] in vrows]
+                evals += 1
+                distinct.add(("names", tuple(vrows), rep))
+                for nm, want in (("HH", [r for r in vrows if r in hh_rows]), ("grp", [r for r in vrows if r in grp_rows])):
+                    try:
+                        with quiet():
+                            got = [int(x) for x in getattr(view, nm)._nodes_in_view]
+                    except ValueError:
+                        got = []
+                    if got != want:
+                        viol.append({"kind": f"the name selector .{nm} of a view does not select exactly the view's compartments that have it", "rows_in_view": vrows,
+                                     "rows_with_it": hh_rows if nm == "HH" else grp_rows, "got": got, "expected": want})
+                for ty in (IonotropicSynapse, TestSynapse):
+                    want = [e for e in ev if tys[e] is ty]
+                    if ty.__name__ not in net.synapse_names:
+                        continue
+                    try:
+                        with quiet():
+                            got = sorted(int(x) for x in getattr(view, ty.__name__)._edges_in_view)
+                    except ValueError:
+                        got = []
+                    if got != want:
+                        viol.append({"kind": "the synapse-type selector of a view does not select exactly the view's synapses of that type", "rows_in_view": vrows,
+                                     "type": ty.__name__, "got": got, "expected": want})
+            # synapses: slices are not limited by the number of compartments; edge() in both scopes
+            a_, b_ = sorted(rng.sample(range(ne + 1), 2))
+            for how, f, want in (("select(edges=slice)", lambda: net.select(edges=slice(a_, b_)), list(range(a_, b_))),
+                                 ("scope('global').edge(slice)", lambda: net.scope("global").edge(slice(a_, b_)), list(range(a_, b_))),
+                                 ("edge(int) in local scope", lambda: net.edge(a_ if a_ < ne else 0), [a_ if a_ < ne else 0]),
+                                 ("edge('all')", lambda: net.edge("all"), list(range(ne)))):
+                if not want:
+                    continue
+                try:
+                    with quiet():
+                        got = sorted(int(x) for x in f()._edges_in_view)
+                except Exception as ex:
+                    got = "raised " + repr(ex)[:80]
+                evals += 1
+                if got != want:
+                    viol.append({"kind": "a selection of synapses does not select exactly the synapses it denotes", "how": how, "n_synapses": ne, "n_compartments": n,
+                                 "slice": [a_, b_], "got": got, "expected": want})
+    except Exception as ex:
+        import traceback
+        viol.append({"kind": "name-selector checks raised", "error": repr(ex)[:300], "trace": traceback.format_exc()[-500:]})
+
     # ---- the model on the same chains
     import re
     nmodel = 0
@@ -246,7 +317,7 @@ def run(ctx):
     for v in viol:
         v.setdefault("finding_class", None)
     return {"evaluations": evals, "distinct_nontrivial": len(distinct),
-            "rule": "irregular fixtures (network of 3 different cells with 5 random synapses, 4-branch cell, branch): random selection chains up to the depth of the hierarchy over index forms {int, list, range, slice, boolean mask, 'all'} x {local, global} scope, compared exactly (rows, edges, local index columns, acceptance) with Model/Views.v; iteration and [] vs method form; loc(); confinement of set/insert/record/stimulate/clamp/add_to_group/move through random views; distinct by (fixture, chain)",
+            "rule": "irregular fixtures (network of 3 different cells with 5 random synapses, 4-branch cell, branch): random selection chains up to the depth of the hierarchy over index forms {int, list, range, slice, boolean mask, 'all'} x {local, global} scope, compared exactly (rows, edges, local index columns, acceptance) with Model/Views.v; iteration and [] vs method form; loc(); confinement of set/insert/record/stimulate/clamp/add_to_group/move through random views; channel / group / synapse-type name selectors of random views (incl. views that do not contain the name), slices and local-scope selection of synapses with more synapses than compartments; distinct by (fixture, chain)",
             "samples": samples, "violations": viol[:20], "traces_validated_against_impl": nmodel}
 
 
